@@ -10,8 +10,11 @@ package main
 import (
 	"fmt"
 	"go/ast"
+	"go/constant"
 	"go/token"
 	"go/types"
+	"strconv"
+	"strings"
 )
 
 type coverFn struct {
@@ -350,11 +353,18 @@ func reduceFuncFrame(sk *Skeleton, rf *ast.FuncDecl) string {
 // a character-set operation (TrimLeft, Trim) also eats characters of x.
 func displayNameRule(c *Ctx, r *Report, clause string) {
 	gen := c.need(r, clause, "Parser", "", "genTempName")
-	rem := c.need(r, clause, "Parser", "", "RemoveTempName")
-	if gen == nil || rem == nil {
+	if gen == nil {
 		return
 	}
-	key := "Parser.RemoveTempName/inverts-genTempName"
+	for _, dir := range []string{"Parser", "Utils"} {
+		if rem := c.need(r, clause, dir, "", "RemoveTempName"); rem != nil {
+			displayNameRuleFor(c, r, clause, gen, rem)
+		}
+	}
+}
+
+func displayNameRuleFor(c *Ctx, r *Report, clause string, gen, rem *FuncRef) {
+	key := rem.Name + "/inverts-genTempName"
 	ginfo, rinfo := gen.Pkg.TypesInfo, rem.Pkg.TypesInfo
 	prefix, okP := "", false
 	gp := paramObjs(ginfo, gen.Decl)
@@ -436,6 +446,39 @@ func displayNameRule(c *Ctx, r *Report, clause string) {
 		}
 		return true
 	})
+	// a length test must let every `prefix + at least one character` through: len(in) ⋈ K evaluated at len(prefix)+1
+	ast.Inspect(rem.Decl.Body, func(n ast.Node) bool {
+		be, ok := n.(*ast.BinaryExpr)
+		if !ok {
+			return true
+		}
+		call, okc := unparen(be.X).(*ast.CallExpr)
+		k, isC := constInt(rinfo, be.Y)
+		if !okc || builtinName(rinfo, call) != "len" || len(call.Args) != 1 || identObj(rinfo, call.Args[0]) != in || !isC {
+			return true
+		}
+		nlen := int64(len(prefix) + 1)
+		v := false
+		switch be.Op {
+		case token.GTR:
+			v = nlen > k
+		case token.GEQ:
+			v = nlen >= k
+		case token.NEQ:
+			v = nlen != k
+		case token.LSS:
+			v = nlen < k
+		case token.LEQ:
+			v = nlen <= k
+		case token.EQL:
+			v = nlen == k
+		}
+		// the test guards the stripping branch: it must hold for a one-character literal
+		if !v {
+			why = fmt.Sprintf("the length test `%s` fails for a one-character literal (%d bytes with the prefix): such names are shown with the internal prefix", exprString(be), nlen)
+		}
+		return true
+	})
 	// some return strips (slice from len(prefix) / TrimPrefix) and some return gives the name back unchanged
 	strips, keeps := false, false
 	ast.Inspect(rem.Decl.Body, func(n ast.Node) bool {
@@ -464,6 +507,56 @@ func displayNameRule(c *Ctx, r *Report, clause string) {
 	})
 	if why == "" && (!strips || !keeps) {
 		why = "RemoveTempName does not have the two outcomes `literal → text after the prefix` and `other name → unchanged`"
+	}
+	// which outcome is taken when: enumerate the paths and evaluate them on the three classes of names
+	if why == "" {
+		pe := newPathEnum(rinfo)
+		pe.rename[in] = "IN"
+		paths, err := pe.Enumerate(rem.Decl.Body.List)
+		if err != nil {
+			why = err.Error()
+		}
+		for _, cls := range []struct {
+			name     string
+			prefixed bool
+			n        int64
+		}{{"a one-character literal", true, int64(len(prefix) + 1)}, {"a short plain name", false, 3}, {"a long plain name", false, 20}} {
+			cl := cls
+			val := func(t *Term) (constant.Value, bool) {
+				ts := t.String()
+				switch {
+				case t.Op == "len" && ts == "len(IN)":
+					return constant.MakeInt64(cl.n), true
+				case t.Op == "call" && (strings.HasSuffix(t.Name, "strings.HasPrefix") || strings.HasSuffix(t.Name, "TestPrefix")):
+					return constant.MakeBool(cl.prefixed), true
+				case t.Op == "cmp" && (t.Name == "==" || t.Name == "!=") && strings.Contains(ts, "IN[") && strings.Contains(ts, strconv.Quote(prefix)):
+					v := cl.prefixed
+					if t.Name == "!=" {
+						v = !v
+					}
+					return constant.MakeBool(v), true
+				}
+				return nil, false
+			}
+			hits := selectPaths(paths, val)
+			if len(hits) == 0 {
+				why = "no path for " + cl.name
+				continue
+			}
+			for _, p := range hits {
+				if p.Kind != "return" || len(p.Vals) != 1 {
+					continue
+				}
+				rs := p.Vals[0].String()
+				isKeep := rs == "IN"
+				if cl.prefixed && isKeep {
+					why = cl.name + " is returned with its internal prefix"
+				}
+				if !cl.prefixed && !isKeep {
+					why = cl.name + " is rewritten (" + rs + ") although it does not carry the prefix"
+				}
+			}
+		}
 	}
 	r.Check(why == "", clause, "R1 PROVENANCE", key, c.pos(rem.Decl.Pos()),
 		fmt.Sprintf("genTempName prepends %q; RemoveTempName tests for that prefix and removes exactly its %d bytes: a literal is displayed with its own character(s), every other name unchanged", prefix, len(prefix)),
